@@ -246,8 +246,12 @@ def explore_program(label, builder, res, cap, interp=None, alphabets=None, desc=
         c.vscope = c.design.top.children[0]
         c.svars = state_vars(dut, c.vscope)
         return c
-    with core.quiet():
-        c0 = mk()
+    try:
+        with core.quiet():
+            c0 = mk()
+    except VlogError as e:
+        viol('verilog_error:' + norm_msg('%s: %s' % (type(e).__name__, e)), {'error': str(e), 'text': text[-1500:]})
+        return
     if alphabets:
         import itertools
         doms = [alphabets.get(n, range(1 << w.getWidth())) for n, w in ins]
